@@ -872,4 +872,92 @@ func runC07(r *Run) {
 	ruleLockDiscipline(r, "R07.4")
 	rulePendingFetches(r, "R07.5")
 	ruleCompletionPredicate(r, "R07.6")
+	r.floor("R07.8", 1)
+	r.floor("R07.9", 20)
+	ruleCyclesPositive(r, "R07.8")
+	rulePcEndComparison(r, "R07.9")
+}
+
+// ruleCyclesPositive: InstructionType.Cycles() returns a constant >= 1 on every
+// path. The in-order execute units count it down and proceed when the counter
+// reaches exactly zero (`remaining--; if remaining != 0 { return }`): a zero or
+// negative latency never reaches zero and the run spins forever; the unpipelined
+// variants add it to the cycle count (C12: the count accounts for every executed
+// instruction).
+func ruleCyclesPositive(r *Run, rule string) {
+	fd, pk := r.W.Method("risc", "InstructionType", "Cycles")
+	if fd == nil {
+		r.undecided(rule, "risc.(InstructionType).Cycles", token.NoPos, "method not found")
+		return
+	}
+	n, bad := 0, []string{}
+	ast.Inspect(fd.Body, func(m ast.Node) bool {
+		rs, ok := m.(*ast.ReturnStmt)
+		if !ok || len(rs.Results) != 1 {
+			return true
+		}
+		n++
+		tv := pk.TypesInfo.Types[rs.Results[0]]
+		v, ok := constInt64(tv)
+		if !ok || v < 1 {
+			bad = append(bad, r.W.pos(rs.Pos())+" returns "+types.ExprString(rs.Results[0]))
+		}
+		return true
+	})
+	r.check(n > 0 && len(bad) == 0, rule, "risc.(InstructionType).Cycles:positive", fd.Pos(), "all %d return values are constants >= 1 %v", n, bad)
+}
+
+// rulePcEndComparison: every comparison of a program counter with the number
+// of instructions is an inequality. A flush or a resolved jump can set the pc
+// to any instruction boundary, including exactly the end of the program, after
+// which it is incremented: an equality test is then never true again and the
+// unit never reports completion.
+func rulePcEndComparison(r *Run, rule string) {
+	w := r.W
+	for _, v := range variants(w) {
+		if v.pkg == nil {
+			continue
+		}
+		for _, f := range v.pkg.Syntax {
+			for _, d := range f.Decls {
+				fd, ok := d.(*ast.FuncDecl)
+				if !ok || fd.Body == nil {
+					continue
+				}
+				n := 0
+				ast.Inspect(fd.Body, func(m ast.Node) bool {
+					b, ok := m.(*ast.BinaryExpr)
+					if !ok {
+						return true
+					}
+					switch b.Op {
+					case token.EQL, token.NEQ, token.LSS, token.LEQ, token.GTR, token.GEQ:
+					default:
+						return true
+					}
+					mentionsLen := false
+					for _, side := range []ast.Expr{b.X, b.Y} {
+						ast.Inspect(side, func(k ast.Node) bool {
+							if c, ok := k.(*ast.CallExpr); ok {
+								if id, ok := c.Fun.(*ast.Ident); ok && id.Name == "len" && len(c.Args) == 1 {
+									if sel, ok := ast.Unparen(c.Args[0]).(*ast.SelectorExpr); ok && sel.Sel.Name == "Instructions" {
+										mentionsLen = true
+									}
+									// a parameter holding len(app.Instructions) is not tracked: helpers are inlined below
+								}
+							}
+							return true
+						})
+					}
+					if !mentionsLen {
+						return true
+					}
+					n++
+					key := fmt.Sprintf("%s.%s:cmp(len(Instructions))#%d", v.rel, declName(fd), n)
+					r.check(b.Op != token.EQL && b.Op != token.NEQ, rule, key, b.Pos(), "the end-of-program test `%s` is an inequality", types.ExprString(b))
+					return true
+				})
+			}
+		}
+	}
 }
